@@ -53,14 +53,20 @@ class Service(object):
     self._rec('fail', why)
     if why.endswith(':FINE'):
       return 'fine:' + why          # the one way this method returns normally
-    from vlib.gen.verifsvc.ttypes import VerifError
+    from vlib.gen.verifsvc.ttypes import VerifError, OtherError, ThirdError
+    if why.startswith('OTHER:'):    # the second and third declared exceptions
+      raise OtherError(detail=why, n=len(why) * 1000003)
+    if why.startswith('THIRD:'):
+      raise ThirdError(tag=why)
     raise VerifError(why=why, code=len(why))
 
   def vfail(self, why):
     self._rec('vfail', why)
     if why.startswith('ok'):
       return None
-    from vlib.gen.verifsvc.ttypes import VerifError
+    from vlib.gen.verifsvc.ttypes import VerifError, OtherError
+    if why.startswith('OTHER:'):
+      raise OtherError(detail=why, n=len(why) * 1000003)
     raise VerifError(why=why, code=len(why))
 
   def blob(self, b):
